@@ -596,6 +596,12 @@ impl<'a, 'e, 'ast> Visit<'ast> for Rewriter<'a, 'e> {
                 }
             }
         }
+        // R16: X.to_le_bytes() -> X.shim_to_le_bytes()
+        else if name == "to_le_bytes" && m.args.is_empty() {
+            let (ma, mb) = self.src.range(m.method.span());
+            self.ed.replace(ma, mb, vec![Self::lit("shim_to_le_bytes")], "R16");
+            self.fire("R16");
+        }
         // R15: OPT.as_ref().map(|x| BODY)  ->  (match OPT.as_ref() { Some(x) => Some(BODY), None => None })
         //      (the definition of Option::map; if the receiver were not an Option the result would not type-check)
         else if name == "map" && m.args.len() == 1 && Self::is_method(&m.receiver, "as_ref", 0).is_some() {
@@ -860,7 +866,7 @@ fn process_fn(ctx: &mut Ctx, d: &FnDirective, assume_default: bool, tfile: &str)
                 "at_end" => {
                     // end of the body: before a tail expression if the body has one, else at the closing brace
                     match loc.block.stmts.last() {
-                        Some(syn::Stmt::Expr(e, None)) => {
+                        Some(syn::Stmt::Expr(e, None)) if !matches!(loc.sig.output, syn::ReturnType::Default) => {
                             let (s, _) = src.range(e.span());
                             ed.insert(s, format!("{}        ", t), 2, a)
                         }
